@@ -89,23 +89,19 @@ impl<'source> LoaderStore<'source> {
     ) -> Result<(), Error> {
         match (source, name) {
             (Cow::Borrowed(source), Cow::Borrowed(name)) => {
-                self.owned_templates.remove(name);
-                self.borrowed_templates.insert(
+                let compiled = Arc::new(ok!(CompiledTemplate::new(
                     name,
-                    Arc::new(ok!(CompiledTemplate::new(
-                        name,
-                        source,
-                        &self.template_config
-                    ))),
-                );
+                    source,
+                    &self.template_config
+                )));
+                self.owned_templates.remove(name);
+                self.borrowed_templates.insert(name, compiled);
             }
             (source, name) => {
-                self.borrowed_templates.remove(&name as &str);
                 let name: Arc<str> = name.into();
-                self.owned_templates.replace(
-                    name.clone(),
-                    ok!(self.make_owned_template(name, source.to_string())),
-                );
+                let compiled = ok!(self.make_owned_template(name.clone(), source.to_string()));
+                self.borrowed_templates.remove(&name as &str);
+                self.owned_templates.replace(name, compiled);
             }
         }
 
